@@ -174,13 +174,37 @@ pub fn answer(ns: &'static Namespace<'static>, op: &Op) -> String {
                 Err(e) => format!("parse error {e}"),
             }
         }
+        "filter_ctx" => {
+            // one evaluation context kept alive and pointed at one record after the other (its fields
+            // are public): whatever it remembers about a record must not outlive the assignment
+            let recs: Vec<Dict> = op.rec.split(|t| t == "|").map(record_of).collect();
+            match Filter::try_from(op.a.as_str()) {
+                Ok(f) if !recs.is_empty() => {
+                    let mut ctx = EvalContext::make(&recs[0], ns, &recs[0]);
+                    let mut reused: Vec<bool> = Vec::new();
+                    for r in &recs {
+                        ctx.dict = r;
+                        ctx.resolver = r;
+                        reused.push(f.eval(&ctx));
+                    }
+                    let fresh: Vec<bool> = recs.iter().map(|r| f.eval(&EvalContext::make(r, ns, r))).collect();
+                    if reused == fresh {
+                        format!("{fresh:?}")
+                    } else {
+                        format!("CONTEXT-HISTORY a reused evaluation context answers {reused:?}, fresh contexts answer {fresh:?}")
+                    }
+                }
+                Ok(_) => "no records".into(),
+                Err(e) => format!("parse error {e}"),
+            }
+        }
         other => format!("unknown query {other}"),
     }
 }
 
 pub const QUERIES: &[&str] = &[
     "supertypes_of", "all_supertypes_of", "inheritance", "fits", "fits_marker", "fits_val", "fits_choice", "fits_entity", "subtypes_of", "all_subtypes_of",
-    "has_subtype", "choices_for", "associations", "is", "tags", "tag_on", "implementation", "reflect", "def_of_dict", "protos", "has_relationship", "filter",
+    "has_subtype", "choices_for", "associations", "is", "tags", "tag_on", "implementation", "reflect", "def_of_dict", "protos", "has_relationship", "filter", "filter_ctx",
 ];
 
 /// Seeded acyclic taxonomy (multiple inheritance, diamonds, conjuncts, feature keys, undefined
@@ -349,6 +373,27 @@ pub fn gen_op(rng: &mut Rng, syms: &[String], hot: &[String]) -> Op {
             op.rec = vec![format!("id=@r{}", rng.below(4)), pick(rng), format!("xRef=@r{}", rng.below(5)), format!("yRef=@r{}", rng.below(4))];
             if rng.chance(2, 3) {
                 op.rec.push(format!("target=@r{}", rng.below(4)));
+            }
+        }
+        "filter_ctx" => {
+            let s = pick(rng);
+            op.a = match rng.below(3) {
+                0 => format!("^{s}"),
+                1 => format!("^{s} and x"),
+                _ => format!("x or ^{s}"),
+            };
+            for i in 0..rng.range(2, 4) {
+                if i > 0 {
+                    op.rec.push("|".into());
+                }
+                // with and without the tag in question, other tags around it
+                if rng.chance(1, 2) {
+                    op.rec.push(s.clone());
+                }
+                op.rec.push(pick(rng));
+                if rng.chance(1, 2) {
+                    op.rec.push("x".into());
+                }
             }
         }
         "filter" => {
@@ -697,6 +742,8 @@ fn scenario(defs_text: &Arc<String>, threads: &Arc<Vec<Vec<Op>>>, slot: &Arc<Std
         report.answers_hash = mix(&[report.answers_hash, fnv1a(ans.as_bytes())]);
         if ans != expect {
             report.mismatches.push(format!("thread {ti} query {oi} {op:?}: shared warm/concurrent namespace answered {ans:?}, a fresh cold namespace answers {expect:?}"));
+        } else if ans.starts_with("CONTEXT-HISTORY") {
+            report.mismatches.push(format!("thread {ti} query {oi} {op:?}: {ans}"));
         }
     }
     *slot.lock().unwrap() = Some(report);
